@@ -71,7 +71,25 @@ def dep_hash(root, modules=(), units=(), drafts=()):
     return h.hexdigest()[:20]
 
 
+def task_dep(task):
+    """identity of the sources a task depends on, independent of the solver budget"""
+    key = task.cache_key()
+    tmo = getattr(task, "timeout_ms", None)
+    if tmo is not None:
+        key = key.replace("|%s|" % tmo, "|", 1)
+    return hashlib.sha256(key.encode()).hexdigest()[:20]
+
+
 def _run_one(args):
+    r = _run_one_inner(args)
+    try:
+        r["dep"] = task_dep(args[0])
+    except Exception:      # noqa
+        r["dep"] = None
+    return r
+
+
+def _run_one_inner(args):
     task, cdir, use_cache = args
     fn = os.path.join(cdir, hashlib.sha256(task.cache_key().encode()).hexdigest()[:24] + ".json")
     if use_cache and os.path.exists(fn):
